@@ -57,6 +57,16 @@ func (self *Parser) skip() (int, types.ParsingError) {
 	if start < 0 {
 		return self.p, types.ParsingError(-start)
 	}
+	return self.checkEnd(start)
+}
+
+// checkEnd rejects a value that the native scanner delimited past the end of the input
+// (it may complete a truncated literal such as `tru` from the bytes that follow in memory).
+func (self *Parser) checkEnd(start int) (int, types.ParsingError) {
+	if self.p > len(self.s) {
+		self.p = len(self.s)
+		return self.p, types.ERR_EOF
+	}
 	return start, 0
 }
 
@@ -70,7 +80,7 @@ func (self *Parser) skipFast() (int, types.ParsingError) {
 	if start < 0 {
 		return self.p, types.ParsingError(-start)
 	}
-	return start, 0
+	return self.checkEnd(start)
 }
 
 func (self *Parser) getByPath(validate bool, path ...interface{}) (int, types.ParsingError) {
@@ -86,7 +96,7 @@ func (self *Parser) getByPath(validate bool, path ...interface{}) (int, types.Pa
 	if start < 0 {
 		return self.p, types.ParsingError(-start)
 	}
-	return start, 0
+	return self.checkEnd(start)
 }
 
 func validate_utf8(str string) bool {
